@@ -7,7 +7,7 @@ Model driver for C02.
   tbl <i>                row i of the generated `CRC_TABLE` (with Rust's bounds check)
   stbl <i>               row i of the *specification* table (`Spec.Crc.crcTable`)
   crc <bits> [<hex>]     `modes_checksum(message, bits)`
-  rem <hex>              specification remainder `polyMod (bits message)` (compared with the
+  rem <hex>              specification remainder `polyModNat (bits message)` (compared with the
                          implementation's checksum: spec ⇄ code directly)
   gate <hex>             is the frame accepted as DF17 (DF field = 17 and `try_from` is `Ok`)?
   flip <hex> <errhex>    the same for `frame ⊕ error pattern`
@@ -48,7 +48,7 @@ def handle : List String → Option String
     let bs ← parseHex h
     pure (showOutcomeNat (modesChecksum bs n))
   | ["crc", n] => n.toNat?.map fun n => showOutcomeNat (modesChecksum [] n)
-  | ["rem", h] => (parseHex h).map fun bs => s!"ok {(Spec.Crc.polyMod (Spec.Crc.bits bs)).toNat}"
+  | ["rem", h] => (parseHex h).map fun bs => s!"ok {Spec.Crc.polyModNat (Spec.Crc.bits bs)}"
   | ["gate", h] => (parseHex h).map gate
   | ["flip", h, e] => do
     let bs ← parseHex h
